@@ -58,6 +58,8 @@ def run(tier):
     rnd = random.Random(common.seed())
     common.build("plain")
     wd = common.workdir("c04")
+    r = common.tlc("DeltaImpl", "MC_DeltaImpl.cfg", workers=8, timeout=600)
+    ck.require_ok("DeltaImpl", r); ck.add_tlc("DeltaImpl/MC_DeltaImpl.cfg (DoneMeansB, Exactness, PartialNeverValid, Converges)", r, "4 chunks, every initial disk in {full,part,zero,junk}^4 x 3 header states, chunks 2,3 local, limit 2, up to 2 crashes")
     scs = []
     n = 260 if tier == "quick" else 1500
     for i in range(n):
